@@ -7,6 +7,8 @@ import (
 	"errors"
 	"fmt"
 	"net"
+	"os"
+	"strconv"
 	"strings"
 	"sync"
 	"testing"
@@ -101,6 +103,48 @@ func genC12(t *rapid.T) c12Scenario {
 		}
 	}
 	return sc
+}
+
+// portHeldByUs reports whether a UDP socket of THIS process is bound to the
+// port (looked up in /proc/net/udp and /proc/self/fd). A failed bind alone does
+// not say that: once our socket is closed the kernel may hand the ephemeral
+// port to any other process (other shards of this check run in parallel).
+func portHeldByUs(port int) bool {
+	inodes := map[string]bool{}
+	for _, f := range []string{"/proc/net/udp", "/proc/net/udp6"} {
+		b, err := os.ReadFile(f)
+		if err != nil {
+			continue
+		}
+		for _, line := range strings.Split(string(b), "\n")[1:] {
+			fs := strings.Fields(line)
+			if len(fs) < 10 {
+				continue
+			}
+			k := strings.LastIndex(fs[1], ":")
+			if k < 0 {
+				continue
+			}
+			if p, err := strconv.ParseInt(fs[1][k+1:], 16, 32); err == nil && int(p) == port {
+				inodes[fs[9]] = true
+			}
+		}
+	}
+	if len(inodes) == 0 {
+		return false
+	}
+	ents, err := os.ReadDir("/proc/self/fd")
+	if err != nil {
+		return true // cannot tell: keep the stricter reading
+	}
+	for _, e := range ents {
+		if l, err := os.Readlink("/proc/self/fd/" + e.Name()); err == nil && strings.HasPrefix(l, "socket:[") {
+			if inodes[strings.TrimSuffix(strings.TrimPrefix(l, "socket:["), "]")] {
+				return true
+			}
+		}
+	}
+	return false
 }
 
 // udpGoroutines returns the ids of the goroutines that currently have a frame
@@ -323,7 +367,13 @@ func runC12(sc c12Scenario, ch sched.Chooser, c *ev.Case, logf func(string, ...a
 		}
 		pc, err := net.ListenUDP("udp", laddr)
 		if err != nil {
-			fail("C12: %s returned as the last Close (the listener and all %d accepted connections are closed), but the port is still bound at that moment: %v", who, len(ccloseDone), err)
+			if !portHeldByUs(laddr.Port) {
+				if c != nil {
+					c.Label("port-taken-by-another-process")
+				}
+				return
+			}
+			fail("C12: %s returned as the last Close (the listener and all %d accepted connections are closed), but the listener's socket is still open at that moment (bind: %v)", who, len(ccloseDone), err)
 			return
 		}
 		_ = pc.Close()
@@ -550,8 +600,13 @@ func runC12(sc c12Scenario, ch sched.Chooser, c *ev.Case, logf func(string, ...a
 		// the shared socket must be closed: port reusable, no goroutine of the package left
 		// every Close has returned: the socket is closed now, not at some later time
 		if pc, err := net.ListenUDP("udp", laddr); err != nil {
-			fail("C12: the listener and every accepted connection are closed and every Close has returned, but the port is still bound: %v (package goroutines: %v)\n%s", err, udpFrames(before), s.Describe())
-			return
+			if portHeldByUs(laddr.Port) {
+				fail("C12: the listener and every accepted connection are closed and every Close has returned, but the listener's socket is still open (bind: %v; package goroutines: %v)\n%s", err, udpFrames(before), s.Describe())
+				return
+			}
+			if c != nil {
+				c.Label("port-taken-by-another-process")
+			}
 		} else {
 			_ = pc.Close()
 		}
@@ -560,6 +615,14 @@ func runC12(sc c12Scenario, ch sched.Chooser, c *ev.Case, logf func(string, ...a
 			pc, err := net.ListenUDP("udp", laddr)
 			if err == nil {
 				_ = pc.Close()
+				if fr := udpFrames(before); len(fr) == 0 {
+					break
+				} else if time.Now().After(deadline) {
+					fail("C12: the listener and every accepted connection are closed, but goroutines of the package are still running: %v\n%s", fr, s.Describe())
+					return
+				}
+			} else if !portHeldByUs(laddr.Port) {
+				// some other process has been given the port meanwhile: the socket is released
 				if fr := udpFrames(before); len(fr) == 0 {
 					break
 				} else if time.Now().After(deadline) {
